@@ -395,6 +395,17 @@ func (f *Frame) stdModel(in ssa.Instruction, callee *ssa.Function, cc *ssa.CallC
 		c.note("assumed", "assumed contract: errors.As / errors.Is report false for a nil error")
 		res := f.opaqueCall(in, cc, callee, args, st)
 		st.assume(c, Implies(Eq(args[0][0], IntLit(0)), Not(res[0])))
+		if name == "errors.As" && len(cc.Args) == 2 {
+			// an error whose own dynamic type is the target's type matches at once
+			tt := cc.Args[1].Type()
+			if mi, ok := cc.Args[1].(*ssa.MakeInterface); ok {
+				tt = mi.X.Type() // the target is passed as `any`
+			}
+			if pt, ok := tt.Underlying().(*types.Pointer); ok && !types.IsInterface(pt.Elem()) {
+				c.note("assumed", "assumed contract: errors.As(err, &t) is true when err's dynamic type is t's type")
+				st.assume(c, Implies(Eq(args[0][0], c.typeID(pt.Elem())), res[0]))
+			}
+		}
 		return res, true
 	case "unicode.IsControl":
 		c.note("assumed", "assumed contract: unicode.IsControl(r) for r < 256 <=> r < 0x20 || 0x7f <= r < 0xa0")
@@ -414,10 +425,29 @@ func (f *Frame) stdModel(in ssa.Instruction, callee *ssa.Function, cc *ssa.CallC
 		}
 		return []Term{app(SStr, fn, args[0][0])}, true
 	case "strings.EqualFold":
-		c.note("assumed", "assumed contract: strings.EqualFold(s,t) is reflexive")
-		r := c.fresh("equalfold", SBool)
+		c.note("assumed", "assumed contract: strings.EqualFold(s,t) is a reflexive function of its arguments")
+		if !c.declared["ext_equalfold"] {
+			c.declared["ext_equalfold"] = true
+			c.emit("(declare-fun ext_equalfold (Str Str) Bool)")
+		}
+		r := app(SBool, "ext_equalfold", args[0][0], args[1][0])
 		st.assume(c, Implies(Eq(args[0][0], args[1][0]), r))
 		return []Term{r}, true
+	case "(*golang.org/x/text/encoding.Encoder).String", "(*golang.org/x/text/encoding.Decoder).String":
+		// the module uses a single text encoding (modified UTF-7) and a fresh
+		// transformer object per call: the result is a function of the input
+		c.note("assumed", "assumed contract: "+name+" is a function of its string argument (one text encoding in the module, stateless between calls)")
+		fn := "ext_textenc"
+		if strings.Contains(name, "Decoder") {
+			fn = "ext_textdec"
+		}
+		if !c.declared[fn] {
+			c.declared[fn] = true
+			c.emit(fmt.Sprintf("(declare-fun %s (Str) Str)", fn))
+			c.emit(fmt.Sprintf("(declare-fun %s_errtid (Str) Int)", fn))
+			c.emit(fmt.Sprintf("(declare-fun %s_errval (Str) Int)", fn))
+		}
+		return []Term{app(SStr, fn, args[1][0]), app(SInt, fn+"_errtid", args[1][0]), app(SInt, fn+"_errval", args[1][0])}, true
 	case "strings.HasPrefix":
 		c.note("assumed", "assumed contract: strings.HasPrefix(s,p) <=> p is empty, or both are non-empty with equal first bytes and HasPrefix(s[1:], p[1:]) (recursive characterisation); HasPrefix(s,p) && len(s)==len(p) <=> s == p")
 		return []Term{c.strPrefix(args[0][0], args[1][0], 0)}, true
